@@ -133,6 +133,7 @@ S = {name: sel(sig) for name, sig in {
     "start2": "startPrank(address,address)",
     "stop": "stopPrank()",
     "deal": "deal(address,uint256)",
+    "addr": "addr(uint256)",
     "store": "store(address,bytes32,bytes32)",
     "load": "load(address,bytes32)",
     "etch": "etch(address,bytes)",
@@ -248,6 +249,14 @@ def vm_handler(world, frame, data):
     if s == S["deal"]:
         world.balance[word(data, 4) & M160] = word(data, 36)
         return True, b""
+    if s == S["addr"]:
+        from mc import secp
+
+        k = word(data, 4)
+        if not secp.valid_key(k):
+            # Foundry rejects 0 and keys >= the curve order; halmos leaves them unspecified (documented TODO): outside the alphabet
+            raise Unsupported("vm.addr of an invalid private key")
+        return True, secp.address_of(k).to_bytes(32, "big")
     if s == S["store"]:
         a, k, v = word(data, 4) & M160, word(data, 36), word(data, 68)
         if a == HEVM and k == FAILED_SLOT and v == 1:
